@@ -129,7 +129,7 @@ class Gen:
         r = self.rng
         c = r.random()
         if c < 0.08:
-            return {"t": "str", "s": r.choice(["a", "hello", "x_1", "two words", "\u00e9 \u65e5", "1.5", "True", "p0", "q1", "{a}", "pi", "for", "1j", ""])}
+            return {"t": "str", "s": r.choice(["a", "hello", "x_1", "two words", "\u00e9 \u65e5", "1.5", "True", "p0", "q1", "{a}", "pi", "for", "1j", "", "1,2", "10,000", "a\\b", "# no comment", "2 | 3"])}
         if c < 0.14:
             return {"t": "bool", "b": r.random() < 0.5}
         if c < 0.24:
